@@ -8,10 +8,15 @@ import "context"
 // carries it, for values, errors and completion alike.
 func vC09Cat(L int) {
 	op := &vCatalog[vChoice("entry", len(vCatalog))]
-	if op.nsrc != 1 {
+	if op.nsrc > 1 || op.name == "DefaultIfEmpty" {
+		// DefaultIfEmpty(v) is DefaultIfEmptyWithContext(context.Background(), v): a deliberate,
+		// documented context reset for the default item (excluded by name, see DESIGN.md C09)
 		vAssume(false)
 	}
-	in := vLegalScript("s", L)
+	var in []vStep
+	if op.nsrc == 1 {
+		in = vLegalScript("s", L)
+	}
 	m := vInt64("marker")
 	ctx0 := context.WithValue(context.Background(), vKeySub, m)
 	p := &vProbe{name: "src", itemCtx: true}
